@@ -124,6 +124,12 @@ var LongIntType = &graphql.ScalarType{
 		}
 		return nil
 	},
-	VariableValueCoercion: coerceLongInt,
-	ResultCoercion:        coerceLongInt,
+	VariableValueCoercion: func(v interface{}) interface{} {
+		if _, ok := v.(bool); ok {
+			// booleans may be coerced to integers in results, but are not integer input values
+			return nil
+		}
+		return coerceLongInt(v)
+	},
+	ResultCoercion: coerceLongInt,
 }
